@@ -12,6 +12,7 @@ package main
 import (
 	"bufio"
 	"bytes"
+	"context"
 	"encoding/json"
 	"flag"
 	"fmt"
@@ -116,6 +117,7 @@ func filteredKeys(ases [][]Attr) []attribute.Key {
 func runScenario(sc *Scenario, tw *vh.TraceWriter, res *vh.Result) {
 	var wd *world
 	created := []Inst{}
+	phase := "unreg" // unreg -> reg (Register) -> down (Shutdown)
 	defer func() {
 		if wd != nil {
 			wd.close()
@@ -145,6 +147,20 @@ func runScenario(sc *Scenario, tw *vh.TraceWriter, res *vh.Result) {
 			wd.mark = !sc.NoMark
 			tw.Emit(map[string]any{"ev": "New", "sc": sc.ID, "opts": op.Opts, "res": sc.Res, "ases": sc.ASes, "bounds": boundsText,
 				"qbounds": qbounds, "scopes": sc.Scopes, "mark": wd.mark})
+		case "Register":
+			wd.register()
+			phase = "reg"
+		case "Shutdown":
+			// the last state, as the SDK sees it, is recorded before the provider goes down
+			streams, err := wd.sdkView()
+			if err != nil {
+				res.Inconcl(fmt.Sprintf("%s: Reader.Collect: %v", sc.ID, err))
+				return
+			}
+			tw.Emit(map[string]any{"ev": "Env", "sc": sc.ID, "insts": created, "streams": streams})
+			_ = wd.mp.Shutdown(context.Background())
+			phase = "down"
+			res.Count("provider-shutdowns", 1)
 		case "Create":
 			if err := wd.create(op.inst); err != nil {
 				// the property quantifies over valid instruments: an SDK rejection is a generator bug
@@ -156,19 +172,25 @@ func runScenario(sc *Scenario, tw *vh.TraceWriter, res *vh.Result) {
 			wd.recordIn(op.id, op.AS, sc.ASes[op.AS-1], float64(op.V), op.SP)
 			res.Evaluations++
 		case "Scrape":
-			streams, err := wd.sdkView()
-			if err != nil {
-				res.Inconcl(fmt.Sprintf("%s: Reader.Collect: %v", sc.ID, err))
-				return
+			streams := []SStream{}
+			if phase == "reg" {
+				var err error
+				streams, err = wd.sdkView()
+				if err != nil {
+					res.Inconcl(fmt.Sprintf("%s: Reader.Collect: %v", sc.ID, err))
+					return
+				}
+				tw.Emit(map[string]any{"ev": "Env", "sc": sc.ID, "insts": created, "streams": streams})
+			} else {
+				res.Count("scrapes-"+phase, 1) // before registration / after shutdown
 			}
-			tw.Emit(map[string]any{"ev": "Env", "sc": sc.ID, "insts": created, "streams": streams})
 			o := wd.collectObs()
-			tw.Emit(map[string]any{"ev": "Scrape", "sc": sc.ID, "via": "collect", "obs": o})
+			tw.Emit(map[string]any{"ev": "Scrape", "sc": sc.ID, "via": "collect", "phase": phase, "obs": o})
 			res.Count("scrapes", 1)
 			countObs(res, streams, o)
 			if o.Panic == "" {
 				o2 := wd.gatherObs()
-				tw.Emit(map[string]any{"ev": "Scrape", "sc": sc.ID, "via": "gather", "obs": o2})
+				tw.Emit(map[string]any{"ev": "Scrape", "sc": sc.ID, "via": "gather", "phase": phase, "obs": o2})
 				res.Count("scrapes", 1)
 			}
 		}
